@@ -4,4 +4,4 @@ CONSTANTS Clients = {"c1"}
   Progs <- Progs1
   MaxTime = 3
   WithFix = TRUE
-INVARIANTS AtMostOnce ExactlyOnceAtClose RunOnlyOnSchedThread NeverEarly ThreadGoneAtClose NoLeak MutexSane
+INVARIANTS AtMostOnce ExactlyOnceAtClose RunOnlyOnSchedThread NeverEarly ThreadGoneAtClose NoLeak MutexSane NoSleepThroughExit
